@@ -38,13 +38,17 @@ def gen_ops(tier, rng):
         for off in [0, 1, 63, 99]:
             ver("default", "-", 4, 2, 100, rng.randrange(6), off, dl, "all-deltas")
     # large shards: first/last byte, around 64-multiples and goroutine chunk boundaries, random offsets
-    for (f, o, d, p, size) in [("default", "-", 10, 4, 33333), ("cauchy", "g=4,ms=1024", 5, 3, 32768 + 64), ("default", "ms=4096,g=16", 3, 2, (1 << 20) + 1)]:
+    for (f, o, d, p, size) in [("default", "-", 10, 4, 33333), ("cauchy", "g=4,ms=1024", 5, 3, 32768 + 64), ("default", "ms=4096,g=16", 3, 2, (1 << 20) + 1),
+                               ("default", "-", 2, 2, (2 << 20) + 77), ("cauchy", "nosimd", 2, 1, (1 << 20) + (1 << 19))]:
         ver.seed = rng.randrange(1, 1 << 30)
         offs = {0, size - 1, size // 2, 63, 64, 65, size - 64, size - 65}
         for k in range(1, 17):
             b = (size // 16) * k
             offs |= {max(0, b - 1), min(size - 1, b), min(size - 1, b + 1)}
         offs |= {rng.randrange(size) for _ in range(20 if tier == "quick" else 200)}
+        if size > (1 << 20):       # the last partial MiB / partial block of a large shard
+            tail = (size >> 20) << 20
+            offs |= {o for o in (tail, tail + 1, (tail + size) // 2, size - 2) if 0 <= o < size}
         for off in sorted(offs):
             ver(f, o, d, p, size, rng.randrange(d + p), off, rng.randrange(1, 256), "large")
     # Leopard GF8 / GF16 (the property is about every codec): every shard, incl. shapes with more parity than data, one
